@@ -18,6 +18,7 @@ Inductive op14 :=
 | OElemSet (keys values : list string) (element : option node)
 | OElemAppend (els : list node)
 | OFieldMatch (name : string) (value : option string) (create : option node)
+| OFieldMatchRe (name : string) (compiled : option Regex.re)   (* FieldMatcher{Name, StringRegexValue}; the compiled expression *)
 | OFieldClear (name : string) (if_empty : bool)
 | OTeeSet (name : string) (v : node)          (* Tee(SetField(name, v)) *)
 (* kfns.go, applied to the document *)
@@ -193,6 +194,7 @@ Definition run14 (c : case14) : res (node * option node * obs14) :=
   | OElemSet keys values element => piped (elem_setter nonstr keys values element)
   | OElemAppend els => piped (elem_append els)
   | OFieldMatch name value create => piped (field_matcher nonstr name value create)
+  | OFieldMatchRe name cre => piped (field_matcher_regex nonstr name cre)
   | OFieldClear name ie => piped (field_clearer name ie)
   | OTeeSet name v =>
       do r <- walk None ps (k_tee (k_set_field nonstr name v)) d; Ok (fst r, snd r, ObNone)
